@@ -24,7 +24,7 @@
 EXTENDS Integers, Sequences, FiniteSets, SequencesExt, TLC, Emit, Rat
 
 CONSTANTS Dims,      \* set of space dimensions to enumerate (subset of 1..3)
-          NVar,      \* data variants per space tuple
+          Vars,      \* set of data variants (positive integers) per space tuple
           Salt,
           Big        \* TRUE: larger families of direction tuples (thorough tier)
 
@@ -136,9 +136,11 @@ PolyEval(a, x) ==      \* x: sequence of d rationals
   SumSeq([q \in 1..Len(a.e) |->
             LET ex == Unravel(q - 1, a.sh) IN
             Mul(R(a.e[q]), ProdSeq([c \in 1..Len(x) |-> PowR(x[c], ex[c])]))])
-\* inverse of the Vandermonde matrix of the nodes 0..m
+\* interpolation grid for polynomials of degree m per variable: m + 1 integers around 0 (small values keep the
+\* numbers inside TLC's 32-bit integers); inverse of its Vandermonde matrix
+GridNode(m, r) == r - 1 - (m \div 2)
 VInv(m) ==
-  LET V == [r \in 1..(m + 1) |-> [k \in 1..(m + 1) |-> R(IPow(r - 1, k - 1))]]
+  LET V == [r \in 1..(m + 1) |-> [k \in 1..(m + 1) |-> R(IPow(GridNode(m, r), k - 1))]]
       cols == [c \in 1..(m + 1) |-> Solve(V, [r \in 1..(m + 1) |-> IF r = c THEN One ELSE Zero])]
   IN TLCEval([r \in 1..(m + 1) |-> [c \in 1..(m + 1) |-> cols[c][r]]])
 
@@ -194,20 +196,27 @@ GenPoly(d, m, s) ==
 PullBack(a, geo, m) ==
   LET d  == Len(geo.b)
       Vi == VInv(m)
-      vals == Mk([k \in 1..d |-> m + 1], LAMBDA xi : LET X == GeoX(geo, xi) IN PolyEval(a, [c \in 1..d |-> R(X[c])]))
+      vals == Mk([k \in 1..d |-> m + 1],
+                 LAMBDA mi : LET X == GeoX(geo, [k \in 1..d |-> GridNode(m, mi[k] + 1)]) IN PolyEval(a, [c \in 1..d |-> R(X[c])]))
   IN ModeAll(vals, [k \in 1..d |-> Vi])
 \* coefficient tensor (shape (m+2)^d) of  |det J| * (f o X)
 WeightedPullBack(a, geo, sgn, m) ==
   LET d  == Len(geo.b)
       Vi == VInv(m + 1)
       vals == Mk([k \in 1..d |-> m + 2],
-                 LAMBDA xi : LET X == GeoX(geo, xi) IN
+                 LAMBDA mi : LET xi == [k \in 1..d |-> GridNode(m + 1, mi[k] + 1)]
+                                 X  == GeoX(geo, xi) IN
                              Mul(R(sgn * Det(GeoJac(geo, xi))), PolyEval(a, [c \in 1..d |-> R(X[c])])))
-  IN ModeAll(vals, [k \in 1..d |-> Vi])
+  IN IF \A c \in 1..d : geo.B[c] = 0
+     THEN \* constant weight: scale the pull-back (embedded in the larger coefficient tensor)
+          LET g == PullBack(a, geo, m)  w == R(sgn * Det(geo.A)) IN
+          Mk([k \in 1..d |-> m + 2], LAMBDA ex : IF \A k \in 1..d : ex[k] <= m THEN Mul(w, At(g, ex)) ELSE Zero)
+     ELSE ModeAll(vals, [k \in 1..d |-> Vi])
 \* coefficient tensor (shape 2^d) of |det J|
 WeightPoly(geo, sgn) ==
   LET d == Len(geo.b) IN
-  ModeAll(Mk([k \in 1..d |-> 2], LAMBDA xi : R(sgn * Det(GeoJac(geo, xi)))), [k \in 1..d |-> VInv(1)])
+  ModeAll(Mk([k \in 1..d |-> 2], LAMBDA mi : R(sgn * Det(GeoJac(geo, [k \in 1..d |-> GridNode(1, mi[k] + 1)])))),
+          [k \in 1..d |-> VInv(1)])
 \* int xi^q B_i B_j
 WMass(kv, p, P, q) ==
   LET bp == Breaks(kv)  n == NDofs(kv, p) IN
@@ -233,7 +242,9 @@ MkCase(dt, v) ==
       V    == ModeAll(RatT(c), [k \in 1..d |-> dirs[k].C])
       \* (2) polynomial data in physical coordinates + geometry
       geo  == GeoChoices(d)[((v + Hash(Salt + ISum(dt), 6)) % Len(GeoChoices(d))) + 1]   \* consecutive variants cycle
-      mIn  == IF pmin > 3 THEN 3 ELSE pmin
+      bilin == \E cc \in 1..d : geo.B[cc] # 0
+      mcap == IF bilin THEN 2 ELSE 3            \* keeps the numbers inside 32 bit
+      mIn  == IF pmin > mcap THEN mcap ELSE pmin
       ncmp == 1 + (Hash(s, 8) % 2)
       fin  == [q \in 1..ncmp |-> GenPoly(d, mIn, s + 50 * q)]
       gin  == [q \in 1..ncmp |-> PullBack(fin[q], geo, mIn)]
@@ -265,7 +276,7 @@ MkCase(dt, v) ==
 
 \* two steps per case, so that TLC's workers share the construction of the cases (initial states are
 \* computed by one thread): the initial state names the case, Build constructs it
-Init  == \E d \in Dims : \E dt \in DirTuples(d) : \E v \in 1..NVar : cs = [built |-> FALSE, dt |-> dt, v |-> v]
+Init  == \E d \in Dims : \E dt \in DirTuples(d) : \E v \in Vars : cs = [built |-> FALSE, dt |-> dt, v |-> v]
 Build == ~cs.built /\ cs' = [MkCase(cs.dt, cs.v) EXCEPT !.built = TRUE]
 Next  == Build
 Spec  == Init /\ [][Next]_cs
